@@ -99,6 +99,15 @@ class TObjMap(T):
 
 
 @dataclass(frozen=True)
+class TUnionMap(T):
+    """dict[scalar, int | object]: presence, int-ness and the int value are arrays (exact); an object value is
+    an unconstrained object of the given class per lookup (over-approximation, as TObjMap)."""
+
+    key: T
+    obj: T
+
+
+@dataclass(frozen=True)
 class TFun(T):
     """Uninterpreted pure callable: args sorts -> result type (result may be TOpt of scalar)."""
 
